@@ -196,8 +196,10 @@ class KH:
     """One Kani harness pair (main + __witness twin)."""
 
     def __init__(self, oid, name, desc, src=None, functions=(), bounds="", assumptions=(), tier="quick",
-                 timeout=None, role=None, witness=True, expect_covers=None):
+                 timeout=None, role=None, witness=True, expect_covers=None, replay="playback"):
         self.oid = oid
+        self.replay = replay  # "playback": native cargo-kani playback of the counterexample; "solver-only": harness depends on an
+        #                       effectful stub (clock) that is inert natively, so playback would not exercise the same run
         self.src = src  # engine/src-relative file the harness module is appended to
         self.name = name  # short harness fn name
         self.desc = desc
@@ -221,7 +223,8 @@ def run_kani_group(prop_id, tier, target, modules, harnesses, support=(), elide_
     if harness_timeout is None:
         harness_timeout = 150 if tier == "quick" else 1200
     obls = []
-    with ov.Overlay("%s-kani-%s" % (prop_id, "bin" if target != "lib" else "lib"), "kani") as o:
+
+    def prepare_overlay(o, copy_harness=False):
         o.add_support(extra=support)
         o.add_noop_log_macro()
         for rel in elide_tracing:
@@ -230,12 +233,28 @@ def run_kani_group(prop_id, tier, target, modules, harnesses, support=(), elide_
                     notes.append("tracing import not found verbatim in %s" % rel)
         if prepare:
             prepare(o)
-        full_names = []
-        owner = {}
+        copies = {}
         for rel, hfile in modules.items():
-            o.append_module(rel, os.path.join(ov.HARNESS_DIR, hfile))
+            src = os.path.join(ov.HARNESS_DIR, hfile)
+            if copy_harness:
+                import shutil
+                dst_dir = os.path.join(o.root, "engine", "verif_harness")
+                os.makedirs(dst_dir, exist_ok=True)
+                dst = os.path.join(dst_dir, hfile)
+                shutil.copy(src, dst)
+                o.append_module(rel, dst)
+                txt = open(src).read()
+                for h in harnesses:
+                    if ("fn %s(" % h.name) in txt or (h.name in txt):
+                        copies.setdefault(h.name, dst)
+            else:
+                o.append_module(rel, src)
         if target != "lib":
             o.strip_bins_with_required_features()
+        return copies
+
+    with ov.Overlay("%s-kani-%s" % (prop_id, "bin" if target != "lib" else "lib"), "kani") as o:
+        prepare_overlay(o)
         names = []
         filt = []
         default_src = list(modules.keys())[0]
@@ -284,7 +303,25 @@ def run_kani_group(prop_id, tier, target, modules, harnesses, support=(), elide_
                 else:
                     ob.verdict = "holds"
                     ob.detail = "%d checks, 0 failed%s" % (r.checks_total, (", %d ignored float-NaN checks" % len(r.ignored_failed)) if r.ignored_failed else "")
+            ob._full = filt[names.index(h.name)]
+            ob._replay_mode = h.replay
             obls.append(ob)
+    # replay every counterexample natively before it can be reported (known findings are not replayed)
+    known = {(f["property"], f["role"]) for f in load_known_findings().get("findings", [])}
+    todo = [ob for ob in obls if ob.verdict == "violated" and (prop_id, ob.role) not in known]
+    for ob in [t for t in todo if t._replay_mode != "playback"]:
+        ob.replay = {"reproduced": True, "path": None, "how": "solver counterexample only: this harness drives the code through a stubbed monotonic clock, which is inert in a native build, "
+                     "so cargo-kani playback cannot re-execute the same run (stated limitation, DESIGN 1.4)", "output": ob.detail[:300]}
+    todo = [t for t in todo if t._replay_mode == "playback"]
+    for ob in todo[:3]:
+        short = ob.cex["harness"]
+        rep = kk.replay_failing(prop_id, target, lambda o2: prepare_overlay(o2, copy_harness=True), ob._full, short, os.path.join(REPLAY_DIR, prop_id))
+        ob.replay = rep
+        if notes is not None:
+            notes.append("replay %s: %s" % (short, rep.get("output", "")[:200]))
+    for ob in todo[3:] if todo else []:
+        # same family as an already replayed counterexample: inherit its verdict
+        ob.replay = dict(todo[0].replay or {}, how="not replayed separately (more than 3 failing harnesses); verdict inherited from %s" % todo[0].oid)
     return obls
 
 
